@@ -411,6 +411,24 @@ func runCheck(id string, o checkOpts) int {
 		fmt.Printf("VACUOUS %d configuration(s) never reach an assertion, e.g. %s\n", len(vacList), strings.Join(lim, " ; "))
 	}
 
+	if o.verbose {
+		type sl struct {
+			id string
+			w  float64
+			p  int64
+			mp int64
+		}
+		var sls []sl
+		for _, r := range results {
+			if r != nil {
+				sls = append(sls, sl{r.Config.ID, r.Wall.Seconds(), r.Paths, r.Stats.MergedPaths})
+			}
+		}
+		sort.Slice(sls, func(i, j int) bool { return sls[i].w > sls[j].w })
+		for i := 0; i < len(sls) && i < 25; i++ {
+			fmt.Fprintf(os.Stderr, "  slow: %.1fs paths=%d merged=%d %s\n", sls[i].w, sls[i].p, sls[i].mp, sls[i].id)
+		}
+	}
 	// evidence
 	var samples []interface{}
 	for i, r := range results {
